@@ -3,6 +3,7 @@ from __future__ import annotations
 
 import math
 import os
+import random
 import shutil
 import tempfile
 from fractions import Fraction
@@ -16,8 +17,18 @@ RULE = ("cohorts of 1..8 coverage-file pairs written to a temp dir (sex mix, per
         "model incl. Tukey's biweight location / midvariance); malformed cohorts (a file whose bins differ); "
         "do_reference_flat; calculate_gc_lo on random sequences; same-sex cohorts of 3..6 normals differing only in depth "
         "through do_reference with the corrections ON (tiled or irregular designs, non-flat profile, <= 10% X bins; "
-        "semantic clauses only: spread ~ 0 and the same profile as at equal depth). non-trivial = >= 2 samples or a sex chromosome "
-        "present; distinct by hash")
+        "semantic clauses only: spread ~ 0 and the same profile as at equal depth). about 15% of the cases (every 5th "
+        "cohort, every other malformed cohort, every 3rd corrections-on cohort, every other flat reference; tag cli-*) "
+        "go through the command line instead, `cnvkit.py reference` run in-process (parse_args + _cmd_reference + the "
+        "writer): target and antitarget .cnn files in one list (targets first / antitargets first / interleaved) or "
+        "as their directory, -o, -y / --male-reference / --haploid-x-reference or absent, -x / -g / --sample-sex / "
+        "--gender with every spelling of male / female or absent (sexes inferred), --no-edge always and --no-gc "
+        "--no-rmask given or (without a genome, where they cannot matter) left to the parser's defaults, half of "
+        "them with -f <generated FASTA with varied G+C / lowercase content> so that --no-gc / --no-rmask are what "
+        "keeps the corrections off; the corrections-on cohorts with no --no-* flag; the flat reference as "
+        "`reference -t targets.bed [-a antitargets.bed] [-y] -o out`; the table handed to the writer is judged "
+        "and the written file must read back equal to it within 1e-5 relative. non-trivial = >= 2 samples or a "
+        "sex chromosome present; distinct by hash")
 EXHAUSTIVE = {"quick": False, "thorough": False}
 ASSUMPTIONS = ["corrections off for the exact tie (with corrections on the rolling-median steps are C04's subject)",
                "sample sexes are a parameter of the model: given, or inferred by the real guess_xx (C15)",
@@ -140,7 +151,42 @@ def gen_cases(rng, tier):
         cases.append({"op": "flat_reference", "tag": "flat",
                       "in": {"tb": _bins(rng, style, False), "ab": _bins(rng, style, True) if rng.random() < .5 else [],
                              "hapX": rng.random() < .5, "par": None}})
+    _mark_cli(cases, random.Random(rng.getrandbits(32)))
     return cases
+
+
+def _mark_cli(cases, r2):
+    """send a share of the cases through `cnvkit.py reference` (own random stream, drawn after every other case
+    field, so the cohorts themselves are the ones generated before the command-line tie existed):
+    every 5th cohort, every other malformed cohort, every 3rd corrections-on cohort and every other flat reference."""
+    seen = {}
+    for c in cases:
+        op = c["op"]
+        key = "malformed" if "bins_differ" in c["tag"] else op
+        n = seen[key] = seen.get(key, -1) + 1
+        every, at = {"reference": (5, 2), "malformed": (2, 1), "reference_on": (3, 1), "flat_reference": (2, 1)}.get(key, (0, 0))
+        if not every or n % every != at:
+            continue
+        i = c["in"]
+        fasta = op == "reference" and r2.random() < .5
+        # without a FASTA (and without a gc column in the .cnn files) the GC / RepeatMasker corrections have nothing
+        # to work on, so leaving --no-gc / --no-rmask out must not change the result: the parser's defaults
+        # (do_gc = do_rmask = True) reach do_reference in those cases
+        flags = ["--no-edge"] + [f for f in ("--no-gc", "--no-rmask") if fasta or r2.random() < .5]
+        r2.shuffle(flags)
+        i["cli"] = True
+        i["cli_opts"] = {
+            "form": r2.choice(["t_a", "a_t", "mixed", "dir"]),
+            "opts_first": r2.random() < .5,
+            "y": r2.choice(["-y", "--male-reference", "--haploid-x-reference"]),
+            "x": r2.choice(["-x", "--sample-sex", "-g", "--gender"]),
+            "sex_f": r2.choice(["f", "x", "female", "Female"]),
+            "sex_m": r2.choice(["m", "y", "male", "Male"]),
+            "o": r2.choice(["-o", "--output"]),
+            "long_flat": r2.random() < .5,
+            "flags": flags if op == "reference" else [],   # corrections-on cohorts: no flag at all (defaults)
+            "fasta": fasta, "fasta_seed": r2.getrandbits(30)}
+        c["tag"] = "cli-" + c["tag"]
 
 
 def corpus():
@@ -175,6 +221,90 @@ def _reread(path):
             for r in d.itertuples()]
 
 
+def _cli_run(argv, out):
+    """`cnvkit.py <argv>` in-process (what the script does: parse_args, then args.func).  Returns the table the
+    command hands to the writer (the file carries 6 significant digits: C08's subject) after checking that it was
+    written exactly once, to the requested output, and that the file reads back equal to it within 1e-5 relative."""
+    import logging
+    from cnvlib import commands
+    from cnvlib.cmdutil import read_cna
+    from skgenome import tabio
+    captured = []
+
+    class _Tab:
+        def __getattr__(self, name):
+            return getattr(tabio, name)
+
+        def write(self, garr, outfname=None, *a, **k):
+            captured.append((garr, outfname))
+            return tabio.write(garr, outfname, *a, **k)
+    saved = commands.tabio
+    commands.tabio = _Tab()
+    logging.disable(logging.CRITICAL)
+    try:
+        args = commands.parse_args(argv)
+        args.func(args)
+    finally:
+        logging.disable(logging.NOTSET)
+        commands.tabio = saved
+    if len(captured) != 1 or captured[0][1] != out or not os.path.exists(out):
+        raise AssertionError("cnvkit.py reference did not write exactly one table to the requested output")
+    ref = captured[0][0]
+    back = read_cna(out)
+
+    def same(x, y):
+        x, y = float(x), float(y)
+        return (x != x and y != y) or x == y or abs(x - y) <= 1e-5 * max(abs(x), abs(y))
+    cols = [c for c in ("log2", "depth", "spread") if c in ref]
+    if len(back) != len(ref) or any(c not in back for c in cols) or any(
+            (str(a.chromosome), int(a.start), int(a.end), str(a.gene)) != (str(b.chromosome), int(b.start), int(b.end), str(b.gene))
+            or not all(same(getattr(a, c), getattr(b, c)) for c in cols)
+            for a, b in zip(back.data.itertuples(), ref.data.itertuples())):
+        raise AssertionError("the written reference does not read back as the table the command computed")
+    return ref
+
+
+def _write_fasta(path, need, seed):
+    """a genome covering `need` = {chromosome: length}: 100-base lines drawn from a palette of lines with different
+    G+C / lowercase / N content, the palette entries in use changing every 4 kb (so that both 200-base target bins
+    and 7-kb antitarget bins differ in gc and rmask)"""
+    r = random.Random(seed)
+    palette = []
+    for _ in range(10):
+        pg, pl = r.choice([.15, .3, .5, .7, .85]), r.choice([0, 0, .3, .7, 1])
+        ln = "".join(r.choice("GC" if r.random() < pg else "AT") for _ in range(100))
+        ln = "".join(ch.lower() if r.random() < pl else ch for ch in ln)
+        palette.append(ln if r.random() < .9 else ln[:60] + "N" * 40)
+    with open(path, "w") as fh:
+        for chrom, length in need.items():
+            fh.write(">%s\n" % chrom)
+            lines = []
+            for _ in range(length // 4000 + 1):
+                two = r.sample(palette, 2)
+                lines.extend(r.choice(two) for _ in range(40))
+            fh.write("\n".join(lines) + "\n")
+
+
+def _reference_cli(o, tfiles, afiles, indir, out, hapx, given, fasta=None):
+    """`cnvkit.py reference <target and antitarget .cnn files in one list | their directory> -o out [...]`"""
+    if o["form"] == "dir":
+        pos = [indir]
+    elif o["form"] == "a_t":
+        pos = afiles + tfiles
+    elif o["form"] == "mixed":
+        pos = [f for k in range(len(tfiles)) for f in ((tfiles[k:k + 1] + afiles[k:k + 1]) if k % 2 else (afiles[k:k + 1] + tfiles[k:k + 1]))]
+    else:
+        pos = tfiles + afiles
+    opts = [o["o"], out] + list(o["flags"])
+    if hapx:
+        opts += [o["y"]]
+    if given is not None:
+        opts += [o["x"], o["sex_f"] if given else o["sex_m"]]
+    if fasta:
+        opts += ["-f", fasta]
+    return _cli_run(["reference"] + (opts + pos if o["opts_first"] else pos + opts), out)
+
+
 def run_impl(case):
     import numpy as np
     from cnvlib import reference
@@ -184,8 +314,12 @@ def run_impl(case):
     if op == "gc_rmask":
         g, m = reference.calculate_gc_lo(i["seq"])
         return [frac(float(g)), frac(float(m))]
-    os.makedirs("/var/tmp/verif-c05", exist_ok=True)
-    d = tempfile.mkdtemp(dir="/var/tmp/verif-c05")
+    cli = i.get("cli_opts") if i.get("cli") else None
+    if cli:
+        d = tempfile.mkdtemp(dir="/var/tmp", prefix="c05cli")
+    else:
+        os.makedirs("/var/tmp/verif-c05", exist_ok=True)
+        d = tempfile.mkdtemp(dir="/var/tmp/verif-c05")
     try:
         if op == "reference_on":
             def build(scales, sub):
@@ -199,7 +333,12 @@ def run_impl(case):
                     pth = os.path.join(d, sub, name + ".targetcoverage.cnn")
                     _write(rows, pth)
                     files.append(pth)
-                ref = reference.do_reference(files, None, None, i["hapX"], None, i["female"])
+                if cli:
+                    # no --no-* flag: the parser's defaults (all corrections on) are what reaches do_reference
+                    ref = _reference_cli(cli, files, [], os.path.join(d, sub), os.path.join(d, "out_" + sub, "ref.cnn"),
+                                         i["hapX"], i["female"])
+                else:
+                    ref = reference.do_reference(files, None, None, i["hapX"], None, i["female"])
                 return ref.data
             r1 = build(i["scales_f"], "scaled")
             r0 = build([0.0] * i["k"], "same")
@@ -212,7 +351,15 @@ def run_impl(case):
             if i["ab"]:
                 ap = os.path.join(d, "a.bed")
                 tabio.write(GA.from_rows([tuple(r) for r in i["ab"]], columns=["chromosome", "start", "end", "gene"]), ap, "bed4")
-            ref = reference.do_reference_flat(tp, ap, None, i["hapX"], i["par"])
+            if cli:
+                # (the command has no way to pass par to the flat reference; the generated par is None)
+                out = os.path.join(d, "out", "flat.cnn")
+                argv = ["reference", "--targets" if cli["long_flat"] else "-t", tp]
+                argv += ["--antitargets" if cli["long_flat"] else "-a", ap] if ap else []
+                argv += [cli["y"]] if i["hapX"] else []
+                ref = _cli_run(argv + [cli["o"], out], out)
+            else:
+                ref = reference.do_reference_flat(tp, ap, None, i["hapX"], i["par"])
             return [[str(r.chromosome), int(r.start), int(r.end), frac(float(r.log2))] for r in ref.data.itertuples()]
         tf, af, reread_t, reread_a = [], [], {}, {}
         for s in i["samples"]:
@@ -240,7 +387,21 @@ def run_impl(case):
                         sexes[sid] = a_is_xx
         else:
             sexes = {s["name"]: given for s in i["samples"]}
-        ref = reference.do_reference(tfo, afo, None, i["hapX"], i["par"], given, do_gc=False, do_edge=False, do_rmask=False)
+        if cli:
+            fa = None
+            if cli["fasta"]:
+                # with a genome the GC / RepeatMasker corrections have something to work on: --no-gc / --no-rmask
+                # (always given in these cases) are then what keeps the result equal to the corrections-off model
+                need = {}
+                for s in i["samples"][:1]:
+                    for r in s["t"] + s["a"]:
+                        need[r[0]] = max(need.get(r[0], 0), r[2] + 200)
+                os.makedirs(os.path.join(d, "genome"))
+                fa = os.path.join(d, "genome", "genome.fa")
+                _write_fasta(fa, need, cli["fasta_seed"])
+            ref = _reference_cli(cli, tfo, afo or [], d, os.path.join(d, "out", "reference.cnn"), i["hapX"], given, fa)
+        else:
+            ref = reference.do_reference(tfo, afo, None, i["hapX"], i["par"], given, do_gc=False, do_edge=False, do_rmask=False)
         rows = [[str(r.chromosome), int(r.start), int(r.end), str(r.gene), frac(float(r.log2)), frac(float(r.depth)),
                  frac(float(r.spread))] for r in ref.data.itertuples()]
         return {"rows": rows, "sexes": [[k, bool(v)] for k, v in sexes.items()], "t": reread_t, "a": reread_a}
